@@ -25,7 +25,7 @@
    Tie to the code: (1) the Dependencies lists parsed from every generated *_gen.go file
    must equal jdeps; (2) every execution of the generated programs must make the calls,
    return the error and leave the results the model computes. *)
-From CffVerif Require Import FlowOpModel FlowOpProofs ValidateModel FlowBridge.
+From CffVerif Require Import FlowOpModel FlowOpProofs ValidateModel FlowBridge FlowAdequacy FlowComplete.
 
 Theorem C02_schedule_independent :
   forall f sc, unique_providers f ->
@@ -96,6 +96,39 @@ Theorem C02_canonical_valid : forall f sc, valid f sc (canonical f sc) = true.
 Proof. exact canonical_valid. Qed.
 Print Assumptions C02_canonical_valid.
 
+(* the flow semantics (FlowSemModel: "each parameter receives the value returned by the unique
+   provider of its type; Results hold what their providers returned") is what the generated
+   code computes on every schedule: whenever it yields the Results values, every execution in
+   which all jobs returned nil leaves exactly those values *)
+Theorem C02_results_are_the_dataflow :
+  forall f sc, unique_providers f -> forall e vs, reach f sc e -> complete f e = true ->
+    result_values f sc = Some vs -> map (slot (xstore e)) (gresults f) = map Some vs.
+Proof. exact results_sound. Qed.
+Print Assumptions C02_results_are_the_dataflow.
+
+Theorem C02_semantics_sound :
+  forall f sc, unique_providers f -> forall n, val_sound f sc n /\ res_sound f sc n /\ pred_sound f sc n.
+Proof. exact sem_sound. Qed.
+Print Assumptions C02_semantics_sound.
+
+(* and conversely the semantics always has an answer: for a flow in which every consumed type
+   has a provider or is a Params type (all_provided_b: what "no provider found" of
+   compileFlow guarantees; re-evaluated on every generated flow), the semantics at its fuel
+   assigns an outcome - never "blocked" - to every job that runs in any execution, and that
+   outcome is the job's: same result, same values assigned, same call with the same
+   arguments. The denotational reading of the directive IS what the generated code does,
+   on all schedules. *)
+Theorem C02_semantics_is_the_generated_code :
+  forall f sc, unique_providers f -> all_provided_b f = true ->
+  forall e k ef, reach f sc e -> In (FT k, ef) (xlog e) ->
+    match tresult f sc (fuel_of f) k with
+    | RBlocked _ => False
+    | ROuts outs _ tc => je_res ef = JOk /\ je_outs ef = Some outs /\ je_calls ef = call_of k tc
+    | RFail er _ tc => je_res ef = JFail er /\ je_calls ef = call_of k tc
+    end.
+Proof. exact semantics_is_the_generated_code. Qed.
+Print Assumptions C02_semantics_is_the_generated_code.
+
 (* non-vacuity: a diamond with a predicate, two different valid schedules, same outcome *)
 Definition ex_flow : fflow :=
   {| gparams := [0]; gresults := [3];
@@ -105,7 +138,7 @@ Definition ex_flow : fflow :=
 Definition ex_sc : scenario := {| sc_task := fun _ => OOK; sc_pred := fun _ => PTRUE |}.
 
 Example C02_witness :
-  unique_providers_b ex_flow = true /\
+  unique_providers_b ex_flow = true /\ all_provided_b ex_flow = true /\
   valid ex_flow ex_sc [FT 0; FP 1; FT 1; FT 2] = true /\
   valid ex_flow ex_sc (canonical ex_flow ex_sc) = true /\
   complete ex_flow (run ex_flow ex_sc [FT 0; FP 1; FT 1; FT 2]) = true /\
